@@ -122,6 +122,85 @@ def resetRepeatsInit (init reset : Assigns) : Bool := reset.all fun p => lastVal
 def writesCovered (reset : Assigns) (written exempt : List String) : Bool :=
   written.all fun f => (reset.map (·.1)).contains f || exempt.contains f
 
+/-! ### (a') absorb_and_eliminate (absorption part) and the CTE de-duplication of eliminate_subqueries -/
+
+/-- `subset < superset` on Python sets -/
+def properSubset (a b : List Nat) : Bool := a.all (b.contains ·) && !(b.all (a.contains ·))
+
+/-- an operand of the flattened connector as absorb_and_eliminate sees it: the set of its sub-operands
+    (`set(op.flatten())` when it is of the dual kind, `{op}` otherwise) in SOME iteration order -/
+structure AOp where
+  lits : List Nat
+  dual : Bool
+  deriving DecidableEq, Repr
+
+/-- `subops[i]`: the sub-operand sets that contain `i`, in operand order -/
+def subopsOf (ops : List AOp) (i : Nat) : List (List Nat) := (ops.filter fun o => o.lits.contains i).map (·.lits)
+
+/-- `any(any(subset < superset for subset in subops[i]) for i in superset)` -/
+def absorbed (ops : List AOp) (sup : List Nat) : Bool :=
+  sup.any fun i => (subopsOf ops i).any fun sub => properSubset sub sup
+
+/-- which operands the absorption rule replaces by FALSE / TRUE (`A OR (A AND B) -> A`) -/
+def absorbPass (ops : List AOp) : List Bool := ops.map fun o => o.dual && absorbed ops o.lits
+
+/-- names: a base followed by the numeric suffixes `find_new_name` appended (`cte`, `cte_2`, `cte_2_2`, …) -/
+abbrev Name := List Nat
+
+/-- helper.find_new_name: `base`, else the first of `base_2`, `base_3`, … that is not taken (fuel = |taken| + 1 suffices) -/
+def findFrom (taken : List Name) (base : Name) : Nat → Nat → Name
+  | 0, i => base ++ [i]
+  | fuel + 1, i => if taken.contains (base ++ [i]) then findFrom taken base fuel (i + 1) else base ++ [i]
+
+def findNewName (taken : List Name) (base : Name) : Name :=
+  if taken.contains base then findFrom taken base (taken.length + 1) 2 else base
+
+/-- dict lookup on the storage of a dict (an association list in SOME order, keys distinct) -/
+def dget (d : List (Nat × Name)) (k : Nat) : Option Name := (d.find? fun p => p.1 == k).map (·.2)
+
+structure CteSt where
+  existing : List (Nat × Name)     -- `existing_ctes`: expression ↦ alias
+  taken : List Name                -- keys of `taken`
+  deriving Repr
+
+/-- eliminate_subqueries._new_cte for a scope whose expression is `key` and whose parent alias is `alias` ([] = none):
+    returns the name, whether a new CTE is created, and the updated tables -/
+def newCte (st : CteSt) (key : Nat) (alias : Name) : Name × Bool × CteSt :=
+  let name0 := if alias.isEmpty then findNewName st.taken [0] else alias
+  match dget st.existing key with
+  | some dup => (dup, false, { st with taken := dup :: st.taken })
+  | none =>
+    let name := if st.taken.contains name0 then findNewName st.taken name0 else name0
+    (name, true, { existing := (key, name) :: st.existing, taken := name :: st.taken })
+
+/-- the sequence of `_eliminate` calls of one eliminate_subqueries run: the (name, is-new) decisions -/
+def elimAll : CteSt → List (Nat × Name) → List (Name × Bool)
+  | _, [] => []
+  | st, (k, a) :: rest => let r := newCte st k a; (r.1, r.2.1) :: elimAll r.2.2 rest
+
+/-! ### (c) process-wide tables filled on demand (`_DISPATCH_CACHE`, the `_Dialect._classes` registry) -/
+
+abbrev Table := List (Nat × Nat)
+
+def tget (t : Table) (k : Nat) : Option Nat := (t.find? fun p => p.1 == k).map (·.2)
+
+/-- `v = T.get(k); if v is None: v = build(k); T[k] = v` — returns the value used and the table afterwards -/
+def fillGet (build : Nat → Nat) (t : Table) (k : Nat) : Nat × Table :=
+  match tget t k with
+  | some v => (v, t)
+  | none => (build k, (k, build k) :: t)
+
+/-- the table after a history of lookups -/
+def runFills (build : Nat → Nat) : Table → List Nat → Table
+  | t, [] => t
+  | t, k :: ks => runFills build (fillGet build t k).2 ks
+
+/-- the audited shape of the `_DISPATCH_CACHE` fill in Generator.__init__ (`fillGet` with key `cls` and `build = _build_dispatch`,
+    a function of the key alone) -/
+def expectedDispatchCacheFill : List String :=
+  ["lookup:dispatch=_DISPATCH_CACHE.get(cls)", "if:dispatch is None", "then:dispatch = _build_dispatch(cls)",
+   "then:_DISPATCH_CACHE[cls] = dispatch"]
+
 /-- explicit snapshot (NOT regenerated) of the per-call part of Generator.__init__ / Generator.generate before the repair
     "Generator.generate restarts the generated-alias counter": kept only as a witness of why the reset is needed -/
 def preFixGeneratorInit : Assigns := [("unsupported_messages", "[]"), ("_next_name", "name_sequence('_t')")]
